@@ -1257,6 +1257,72 @@ def search(ctx):
                 ctx.count(f"search-corrupt:{fmt}", [fmt, cl], kind + "/" + ("ok" if r is None else r[0]))
                 if r:
                     ctx.fail(f"load_many:{fmt}:{r[0]}", r[1], {"kind": "file", "fmt": fmt, "lines": cl})
+    # 3c. whitespace-split atom records that are too short (a deleted field, a cut inside the line) must raise
+    for fmt in ("xyz", "extxyz"):
+        for it in range(ctx.n(40, 300) * mult):
+            nf = rng.choice([1, 2, 3, 4])
+            lines, meta, frames = make_file(rng, fmt, nf)
+            starts = frame_spans(fmt, lines)
+            k = rng.randrange(len(starts))
+            a0 = starts[k]
+            b0 = starts[k + 1] if k + 1 < len(starts) else len(lines)
+            atoms = [i for i in range(a0 + 2, b0) if len(lines[i].split()) >= 4]
+            if not atoms:
+                continue
+            i = rng.choice(atoms)
+            cl = list(lines)
+            mode = rng.choice(["delete-field", "cut-midline"])
+            if mode == "delete-field":
+                w = cl[i].split()
+                del w[rng.randrange(1, len(w))]
+                cl[i] = " ".join(w) + "\n"
+                bad = k
+            else:
+                i = [j for j in range(starts[-1] + 2, len(lines)) if len(lines[j].split()) >= 4][-1:]
+                if not i:
+                    continue
+                i = i[0]
+                w = lines[i].split()
+                cl = lines[:i] + [" ".join(w[: rng.randrange(1, len(w))])]  # no newline: the file ends inside the line
+                bad = len(starts) - 1
+            got, final = impl_load_many(fmt, cl)
+            ok = len(got) <= bad and final != "done"
+            ctx.count(f"search-short-record:{fmt}", [fmt, cl], mode + "/" + ("ok" if ok else "accepted"))
+            if not ok:
+                ctx.fail(f"load_many:{fmt}:short-atom-record-accepted",
+                         f"{mode} in frame {bad}: {len(got)} frames yielded, final {final}; an atom record with too few fields "
+                         "must raise LoadError, not yield a frame with made-up values",
+                         {"kind": "file-short", "fmt": fmt, "lines": cl, "bad": bad})
+    # 3d. extended XYZ: frames with byte-identical comment lines and a user-defined per-atom column keep their own data
+    for it in range(ctx.n(12, 100) * mult):
+        nf = rng.choice([2, 3, 5])
+        n = rng.choice([1, 2, 4])
+        title = 'Properties=species:S:1:pos:R:3:vel:R:3:tag:I:1 pbc="T T F"\n'
+        lines, per = [], []
+        for f in range(nf):
+            fr = [f"{n}\n", title]
+            for _ in range(n):
+                fr.append("%s %.4f %.4f %.4f %.5f %.5f %.5f %d\n" % (
+                    rng.choice(["H", "O", "C"]), rng.uniform(-5, 5), rng.uniform(-5, 5), rng.uniform(-5, 5),
+                    rng.uniform(-1, 1), rng.uniform(-1, 1), rng.uniform(-1, 1), rng.randint(0, 9)))
+            lines += fr
+            per.append(fr)
+        got, final = impl_load_many("extxyz", lines)
+        bad = None
+        if final != "done" or len(got) != nf:
+            bad = f"{len(got)} frames, final {final}"
+        else:
+            from ..snapshot import first_diff
+
+            for i, (g, fr) in enumerate(zip(got, per)):
+                d = first_diff(_snap(g[4]), _snap(_load_one_file("extxyz", fr)))
+                if d:
+                    bad = f"frame {i} differs from its single-file load at {d}"
+                    break
+        ctx.count("search-extxyz-identical-titles", [lines], "ok" if bad is None else "BAD")
+        if bad:
+            ctx.fail("load_many:extxyz:frame-identity", "extended XYZ with identical comment lines and user columns: " + bad,
+                     {"kind": "file-identity", "fmt": "extxyz", "lines": lines, "n": n})
     # 3b. MODEL / ENDMDL trajectories
     for it in range(ctx.n(10, 80) * mult):
         nf = rng.choice([1, 2, 3, 5])
@@ -1459,6 +1525,18 @@ def replay(ctx, obj):
         if sig.endswith("partial-frame-no-warning"):
             return final == "done" and bool(got) and not got[-1][3]
         return True
+    if kind == "file-short":
+        got, final = impl_load_many(inp["fmt"], inp["lines"])
+        return not (len(got) <= inp["bad"] and final != "done")
+    if kind == "file-identity":
+        from ..snapshot import first_diff
+
+        lines, n = inp["lines"], inp["n"]
+        per = [lines[i:i + n + 2] for i in range(0, len(lines), n + 2)]
+        got, final = impl_load_many("extxyz", lines)
+        if final != "done" or len(got) != len(per):
+            return True
+        return any(first_diff(_snap(g[4]), _snap(_load_one_file("extxyz", fr))) for g, fr in zip(got, per))
     if kind == "fchk-synthetic":
         pts = [(a, tuple(p)) for a, p in inp["pts"]]
         tags, nwarn, final = impl_fchk(fchk_text(inp["natom"], inp["prefix"], pts), inp["natom"])
